@@ -300,6 +300,14 @@ func (e *Env) complexTest(n *Node, idx int, ts TestSpec) z.Test {
 		}
 		var is *z.ZogIssue
 		switch ts.Complex {
+		case "ctx2":
+			// a superRefine-style test that reports every rule the value breaks: two issues from one call
+			first := ctx.Issue().SetCode(o.Code)
+			if o.Msg != "" {
+				first.SetMessage(o.Msg)
+			}
+			ctx.AddIssue(first)
+			is = ctx.Issue().SetCode(o.Code + "_b")
 		case "ctx":
 			is = ctx.Issue().SetCode(o.Code)
 		case "hand":
